@@ -65,3 +65,65 @@ Proof. vm_compute. split; reflexivity. Qed.
 Example fast_ex2 : valid_inputb [49;54;55;55;55;50;49;54] [] (-10) = true /\
   fast_path_applies F32 (parse_spec [49;54;55;55;55;50;49;54] [] (-10)) = true.
 Proof. vm_compute. split; reflexivity. Qed.
+
+(** ** Corollaries for the fast-path class, in the shape of the other end-to-end properties *)
+
+(** the inputs the fast path decides *)
+Definition fast_class (f : format) (i fr : list Z) (e : Z) : Prop :=
+  valid_inputb i fr e = true /\ fast_path_applies f (parse_spec i fr e) = true.
+
+(** C04 (this class): never a panic, in either build mode *)
+Corollary fast_class_no_panic : forall c f b BT L i fr e,
+  In c ALL_CONFIGS -> f = F32 \/ f = F64 -> fast_class f i fr e ->
+  exists bits, parse_float c TABLES BT L f b i fr e = Ok bits.
+Proof. intros c f b BT L i fr e Hc Hf [V A]. eexists. apply parse_float_fast_correct; assumption. Qed.
+
+(** C05 (this class): configuration and build mode do not matter *)
+Corollary fast_class_config_independent : forall c1 c2 f b1 b2 BT1 BT2 L1 L2 i fr e,
+  In c1 ALL_CONFIGS -> In c2 ALL_CONFIGS -> f = F32 \/ f = F64 -> fast_class f i fr e ->
+  parse_float c1 TABLES BT1 L1 f b1 i fr e = parse_float c2 TABLES BT2 L2 f b2 i fr e.
+Proof.
+  intros c1 c2 f b1 b2 BT1 BT2 L1 L2 i fr e H1 H2 Hf [V A].
+  rewrite (parse_float_fast_correct c1 f b1 BT1 L1 i fr e H1 Hf V A).
+  rewrite (parse_float_fast_correct c2 f b2 BT2 L2 i fr e H2 Hf V A). reflexivity.
+Qed.
+
+(** C09 (this class): monotone in the decimal value *)
+Corollary fast_class_monotone : forall c f b BT L i1 f1 e1 i2 f2 e2 r1 r2,
+  In c ALL_CONFIGS -> f = F32 \/ f = F64 -> fast_class f i1 f1 e1 -> fast_class f i2 f2 e2 ->
+  (dec_value i1 f1 e1 <= dec_value i2 f2 e2)%Q ->
+  parse_float c TABLES BT L f b i1 f1 e1 = Ok r1 -> parse_float c TABLES BT L f b i2 f2 e2 = Ok r2 ->
+  r1 <= r2.
+Proof.
+  intros c f b BT L i1 f1 e1 i2 f2 e2 r1 r2 Hc Hf [V1 A1] [V2 A2] Hle P1 P2.
+  rewrite (parse_float_fast_correct c f b BT L i1 f1 e1 Hc Hf V1 A1) in P1.
+  rewrite (parse_float_fast_correct c f b BT L i2 f2 e2 Hc Hf V2 A2) in P2.
+  injection P1 as <-. injection P2 as <-.
+  assert (Hs : sfmt_ok f = true) by (destruct Hf; subst; [exact sfmt_ok_F32|exact sfmt_ok_F64]).
+  apply (RN_monotone f Hs); [apply dec_value_nonneg; exact V1|exact Hle].
+Qed.
+
+(** C10 (this class): equal values, identical bits *)
+Corollary fast_class_value_invariant : forall c f b BT L i1 f1 e1 i2 f2 e2,
+  In c ALL_CONFIGS -> f = F32 \/ f = F64 -> fast_class f i1 f1 e1 -> fast_class f i2 f2 e2 ->
+  (dec_value i1 f1 e1 == dec_value i2 f2 e2)%Q ->
+  parse_float c TABLES BT L f b i1 f1 e1 = parse_float c TABLES BT L f b i2 f2 e2.
+Proof.
+  intros c f b BT L i1 f1 e1 i2 f2 e2 Hc Hf [V1 A1] [V2 A2] Heq.
+  rewrite (parse_float_fast_correct c f b BT L i1 f1 e1 Hc Hf V1 A1).
+  rewrite (parse_float_fast_correct c f b BT L i2 f2 e2 Hc Hf V2 A2). f_equal.
+  assert (Hs : sfmt_ok f = true) by (destruct Hf; subst; [exact sfmt_ok_F32|exact sfmt_ok_F64]).
+  apply (RN_Qeq f Hs); [apply dec_value_nonneg; exact V1|exact Heq].
+Qed.
+
+(** C03 (this class): a rendering whose value is exactly the float x parses back to x *)
+Corollary fast_class_roundtrip_exact : forall c f b BT L i fr e x,
+  In c ALL_CONFIGS -> f = F32 \/ f = F64 -> fast_class f i fr e ->
+  0 <= x < RoundFacts.inf_bits f -> (dec_value i fr e == value_Q f x)%Q ->
+  parse_float c TABLES BT L f b i fr e = Ok x.
+Proof.
+  intros c f b BT L i fr e x Hc Hf [V A] Hx Heq.
+  rewrite (parse_float_fast_correct c f b BT L i fr e Hc Hf V A). f_equal.
+  assert (Hs : sfmt_ok f = true) by (destruct Hf; subst; [exact sfmt_ok_F32|exact sfmt_ok_F64]).
+  rewrite (RN_Qeq f Hs _ _ (dec_value_nonneg _ _ _ V) Heq). apply (RN_fixpoint f Hs); exact Hx.
+Qed.
